@@ -3338,7 +3338,7 @@ class ISLaEmitter(IslaLanguageListener.IslaLanguageListener):
         }
 
         for var in reversed(free_nonterminal_vars):
-            formula = univ_close_over_var_push_in(formula, var)
+            formula = univ_close_over_var_push_in(formula, var, in_var=self.constant)
 
         # We group segments by their first element such that we introduce quantifiers
         # correctly. For example, if we have expressions `<string>.<length>.<low-byte>`
@@ -3373,7 +3373,9 @@ class ISLaEmitter(IslaLanguageListener.IslaLanguageListener):
 
             group_xpath_exprs = list(group)
             qfd_vars = {var for _, var in group_xpath_exprs}
-            formula = univ_close_over_var_push_in(formula, var, qfd_vars=qfd_vars)
+            formula = univ_close_over_var_push_in(
+                formula, var, in_var=self.constant, qfd_vars=qfd_vars
+            )
 
             for segments, bound_variable in group_xpath_exprs:
                 new_segments = list_set(
@@ -3735,7 +3737,7 @@ class ISLaEmitter(IslaLanguageListener.IslaLanguageListener):
                 parse_tree_text(ctx.inVarType)
             )
         else:
-            in_var = start_constant()
+            in_var = self.constant
 
         self.formulas[ctx] = self.mgr.create(
             (ForallFormula if is_forall else ExistsFormula)(
